@@ -201,7 +201,17 @@ def register(prop, run, KERNELS, C01_COVERS):
          text="Bounded symbolic model checking with a controlled scheduler: the iterator's producer goroutine and the consumer are interpreted goroutines, every channel operation is a scheduling decision enumerated like any other path decision; the consumer performs every sequence of Next/Close calls up to n+2. After Close or exhaustion Next must be false, the producer must have exited (not merely be blocked), the pinned version must be released, and no schedule may deadlock. Re-entrant visitor callbacks (reads, mutations, Snapshot, Flush, Evict inside a visit) must complete without self-deadlock on the modelled mutexes and see the pinned version.",
          note=NOTE, technique="symbolic execution of go/ssa + SMT with an enumerated scheduler (context-bounded)", design_ref="DESIGN.md §4 C18")
 
-    claimed = {"C01", "C02", "C03", "C04", "C06", "C07", "C08", "C09", "C10", "C11", "C12", "C13", "C14", "C15", "C16", "C17", "C18", "C19"}
+    prop("C05",
+         quick=[run("C05_conc", covers=["done", "flushed", "preempted"], initial=1, mutations=1, flusher=1, preemptions=1, budget=900)],
+         thorough=[run("C05_conc", covers=["done", "flushed", "preempted"], initial=2, mutations=1, flusher=1, preemptions=1, budget=3000),
+                   run("C05_conc", covers=["done", "preempted"], initial=1, mutations=2, flusher=0, preemptions=2, budget=3000),
+                   run("C05_conc", covers=["done", "flushed", "preempted"], initial=1, mutations=2, flusher=1, preemptions=1, budget=3000)],
+         outside=["weak-memory behaviours: sequential consistency is assumed (the code has deliberate unsynchronised accesses, nodeMutex = false)", "more than 1 (quick) / 2 pre-emptive context switches per schedule; switches at blocking points are free", "pre-emption only at mutex, atomic, channel, StoreFile-call and visitor-callback boundaries, not at every memory access", "one reader performing one operation; at most 2 mutations; concrete keys a..c (values symbolic)"],
+         text="Bounded symbolic model checking with an enumerated scheduler: mutator, flusher and reader are interpreted goroutines over one harness StoreFile; every mutex operation, atomic, StoreFile call and visitor callback is a scheduling decision, enumerated exhaustively up to the pre-emption bound. Each read result must equal the contents of one version whose validity interval intersects the call interval (a visit is compared as a whole sequence), no schedule may panic or deadlock, the mutator's final state must be the sequential result, and the file written by the concurrent Flush must re-open to per-collection versions that were current during the Flush, a not later than b.",
+         note=NOTE + "; sequential consistency; schedule-dependent counterexamples are replayed concretely in the engine when the native build cannot be forced onto the schedule",
+         technique="symbolic execution of go/ssa + SMT with an enumerated scheduler (context-bounded)", design_ref="DESIGN.md §4 C05")
+
+    claimed = {"C01", "C02", "C05", "C03", "C04", "C06", "C07", "C08", "C09", "C10", "C11", "C12", "C13", "C14", "C15", "C16", "C17", "C18", "C19"}
     for pid in ALL:
         if pid not in claimed:
             NOT_APPLICABLE.append({"property_id": pid, "reason": "check not built yet in this session (interim state; see DESIGN.md build order)"})
